@@ -2,25 +2,32 @@ import YakModel.Proto.Epoch
 /-!
 # Invariants of the epoch reclamation protocol (`Proto/Epoch`)
 
-`Inv` is the inductive invariant behind `no_premature_free`. In words:
+`Inv` is the inductive invariant behind `no_premature_free`. It has three parts.
 
-* every value a worker ever loaded from `E` or stored into `begin` is in `[1, E]`;
-* **window**: an ACTIVE session's `begin` is `E` or `E - 1`, and `G < begin`, and the gc thread's
-  local copy `g` of `G` is `< begin` as well (and both are `< E`, which is what makes a session
-  that becomes active *later* satisfy the same bound);
-* the epoch thread's non-atomic scans: while it is in its check scan its local `cur` equals `E`
-  and every active session at a position it has already passed has `begin = E` (so at `eInc`
-  ALL active sessions have `begin = E`); while it is in its min scan its running minimum (or `E`
-  if it has not seen any session yet) is `≤ begin` of every active session at a position it has
-  already passed — a session that becomes active behind the scan position does so with
-  `begin = E`, and `E` does not move during the scan because only the scanning thread moves it;
-* every retired, not yet released `(tag, obj)` has `begin[j] ≤ tag + 1` for every `j` in
-  `witness obj`, and witness sets only contain active sessions.
+* `GlobOK` (shared words and thread locals): `1 ≤ E`, `G < E`, the gc thread's local copy `g`
+  of `G` is `< E`, the epoch thread's `cur` equals `E` during its check scan (only that thread
+  writes `E`), its running minimum is in `[1, E]` during its min scan.
+* `SlotOK` (one slot): `begin ≤ E`; a loaded / published epoch value is in `[1, E]` and a
+  published one equals `begin`; and for an ACTIVE session (enter has returned)
+  - **window**: `1 ≤ begin`, `E ≤ begin + 1`, i.e. `begin ∈ {E - 1, E}`,
+  - `G < begin` and `g < begin`,
+  - check scan: if the scan position has passed the slot then `begin = E` (so at `eInc` EVERY
+    active session has `begin = E`, which re-establishes the window for `E + 1`),
+  - min scan: if the scan position has passed the slot then `m ≤ begin` (`E ≤ begin` while
+    `m = ∞`). A session that becomes active behind the scan position does so with `begin = E`
+    (that is what the re-check of the repaired enter buys), and `m ≤ E`; `E` does not move
+    during the scan because only the scanning thread moves it.
+* `Ghost`: witness sets contain only active sessions; every retired, not yet released
+  `(tag, obj)` is allocated and has `begin[j] ≤ tag + 1` for every `j ∈ witness obj`; every
+  released object is allocated and has an empty witness set.
 
-A release needs `tag < g`; with `g < begin[j] ≤ tag + 1` there is no `j` left in the witness set.
+A release needs `tag < g`; with `g < begin[j] ≤ tag + 1` no `j` is left in the witness set
+(`free_ok`).
 
 The step lemma is generic in `Cfg`: for the unrepaired enter it needs `NoStall s` (every loaded,
-not yet published epoch value still equals `E`).
+not yet published epoch value still equals `E`) — this gives `no_premature_free_partial`.
+
+`Distinct` (retired objects pairwise distinct and not released) gives `freed_once`.
 -/
 namespace Yak.Proto.Epoch
 
@@ -33,51 +40,90 @@ def GPc.g? : GPc → Option Nat
 @[simp] theorem g?_cache (j g : Nat) : (GPc.cache j g).g? = some g := rfl
 @[simp] theorem g?_pop (j g : Nat) : (GPc.pop j g).g? = some g := rfl
 
-/-- every worker that is between its load of `E` and its store to `begin` holds the current `E` -/
 def NoStall (s : State) : Prop := ∀ i e, s.pc i = .loaded e → e = s.E
 
-structure Inv (s : State) : Prop where
-  Epos : 1 ≤ s.E
-  GltE : s.G < s.E
-  bgLe : ∀ i, s.bg i ≤ s.E
-  loadedB : ∀ i e, s.pc i = .loaded e → 1 ≤ e ∧ e ≤ s.E
-  pubB : ∀ i e, s.pc i = .published e → s.bg i = e ∧ 1 ≤ e
-  actB : ∀ i, s.pc i = .active → 1 ≤ s.bg i ∧ s.E ≤ s.bg i + 1 ∧ s.G < s.bg i
-  gLoc : ∀ g, s.gpc.g? = some g → g < s.E ∧ ∀ i, s.pc i = .active → g < s.bg i
-  chk : ∀ cur j, s.epc = .check cur j →
-    cur = s.E ∧ ∀ i, i < j → s.pc i = .active → s.bg i = s.E
-  minsS : ∀ v j, s.epc = .minScan (some v) j →
-    1 ≤ v ∧ v ≤ s.E ∧ ∀ i, i < j → s.pc i = .active → v ≤ s.bg i
-  minsN : ∀ j, s.epc = .minScan none j → ∀ i, i < j → s.pc i = .active → s.E ≤ s.bg i
-  actLt : ∀ i, s.pc i = .active → i < s.n
+/-- facts about the shared words and the two service threads' locals -/
+def GlobOK (E G : Nat) (gpc : GPc) (epc : EPc) : Prop :=
+  1 ≤ E ∧ G < E ∧
+  (∀ g, gpc.g? = some g → g < E) ∧
+  (∀ cur j, epc = .check cur j → cur = E) ∧
+  (∀ v j, epc = .minScan (some v) j → 1 ≤ v ∧ v ≤ E)
+
+/-- facts about one slot (`pc`, `b = begin`) relative to the shared words -/
+def SlotOK (E G n : Nat) (gpc : GPc) (epc : EPc) (i : Nat) (pc : WPc) (b : Nat) : Prop :=
+  b ≤ E ∧
+  (∀ e, pc = .loaded e → 1 ≤ e ∧ e ≤ E) ∧
+  (∀ e, pc = .published e → b = e ∧ 1 ≤ e) ∧
+  (pc = .active →
+    1 ≤ b ∧ E ≤ b + 1 ∧ G < b ∧ i < n ∧
+    (∀ g, gpc.g? = some g → g < b) ∧
+    (∀ cur j, epc = .check cur j → i < j → b = E) ∧
+    (∀ v j, epc = .minScan (some v) j → i < j → v ≤ b) ∧
+    (∀ j, epc = .minScan none j → i < j → E ≤ b))
+
+structure Ghost (s : State) : Prop where
   witAct : ∀ o j, j ∈ s.wit o → s.pc j = .active
   ret : ∀ i t o, (t, o) ∈ s.items i → o ∈ s.allocd ∧ ∀ j, j ∈ s.wit o → s.bg j ≤ t + 1
   freedA : ∀ o, o ∈ s.freed → o ∈ s.allocd ∧ s.wit o = []
 
+structure Inv (s : State) : Prop where
+  glob : GlobOK s.E s.G s.gpc s.epc
+  slot : ∀ i, SlotOK s.E s.G s.n s.gpc s.epc i (s.pc i) (s.bg i)
+  ghost : Ghost s
+
 theorem inv_init (N : Nat) : Inv (init N) := by
-  constructor <;> simp [init, State.bg, State.pc, State.items, Slot.items, GPc.g?]
+  refine ⟨?_, ?_, ?_⟩
+  · simp [init, GlobOK]
+  · intro i; simp [init, SlotOK, State.pc, State.bg]
+  · constructor <;> simp [init, State.items, Slot.items]
 
-/-- the core safety argument: an item whose tag is below the gc thread's local `g` has an empty
-    witness set -/
-theorem free_ok {s : State} (h : Inv s) {j t o g : Nat} (hit : (t, o) ∈ s.items j)
-    (hg : s.gpc.g? = some g) (hlt : ¬ g ≤ t) : o ∈ s.allocd ∧ s.wit o = [] := by
-  obtain ⟨ha, hw⟩ := h.ret j t o hit
-  refine ⟨ha, ?_⟩
-  apply List.eq_nil_iff_forall_not_mem.mpr
-  intro k hk
-  have h1 := hw k hk
-  have h2 := (h.gLoc g hg).2 k (h.witAct o k hk)
-  omega
+theorem ghost_mono {s s' : State} (h : Ghost s) (hwit : s'.wit = s.wit) (hall : s'.allocd = s.allocd)
+    (hact : ∀ j, s.pc j = .active → s'.pc j = .active ∧ s'.bg j = s.bg j)
+    (hitems : ∀ i x, x ∈ s'.items i → x ∈ s.items i)
+    (hfreed : ∀ o, o ∈ s'.freed → o ∈ s.freed ∨ (o ∈ s.allocd ∧ s.wit o = [])) : Ghost s' := by
+  obtain ⟨h1, h2, h3⟩ := h
+  refine ⟨?_, ?_, ?_⟩
+  · intro o j hj
+    rw [hwit] at hj
+    exact (hact j (h1 o j hj)).1
+  · intro i t o hi
+    obtain ⟨ha, hb⟩ := h2 i t o (hitems i _ hi)
+    rw [hall, hwit]
+    refine ⟨ha, ?_⟩
+    intro j hj
+    rw [(hact j (h1 o j hj)).2]
+    exact hb j hj
+  · intro o ho
+    rw [hall, hwit]
+    rcases hfreed o ho with h | h
+    · exact h3 o h
+    · exact h
 
-theorem mem_activeSlots {s : State} {j : Nat} : j ∈ activeSlots s ↔ j < s.n ∧ s.pc j = .active := by
-  simp [activeSlots, List.mem_filter]
-
-syntax "inv_auto" : tactic
-macro_rules
-  | `(tactic| inv_auto) => `(tactic|
-      (constructor <;>
-        simp only [State.setSlot, State.pc, State.bg, State.items, upd, g?_loadG, g?_cache, g?_pop] at * <;>
-        grind [Slot.items]))
+/-- a worker step that rewrites slot `i` without touching its retire queue -/
+theorem inv_setSlot {s : State} (h : Inv s) (i : Nat) (sl : Slot)
+    (hitems : sl.items = (s.slots i).items)
+    (hnew : SlotOK s.E s.G s.n s.gpc s.epc i sl.pc sl.begin)
+    (hact : s.pc i = .active → sl.pc = .active ∧ sl.begin = s.bg i) : Inv (s.setSlot i sl) := by
+  refine ⟨h.glob, ?_, ?_⟩
+  · intro j
+    by_cases hj : j = i
+    · subst hj
+      simpa [State.setSlot, State.pc, State.bg, upd] using hnew
+    · simpa [State.setSlot, State.pc, State.bg, upd, hj] using h.slot j
+  · apply ghost_mono (s' := s.setSlot i sl) h.ghost rfl rfl
+    · intro j hj
+      by_cases hji : j = i
+      · subst hji
+        simpa [State.setSlot, State.pc, State.bg, upd] using hact hj
+      · simp [State.setSlot, State.pc, State.bg, upd, hji] at hj ⊢
+        exact hj
+    · intro j x hx
+      by_cases hji : j = i
+      · subst hji
+        simpa [State.setSlot, State.items, upd, hitems] using hx
+      · simpa [State.setSlot, State.items, upd, hji] using hx
+    · intro o ho
+      exact Or.inl ho
 
 section steps
 variable {cfg : Cfg} {s s' : State}
@@ -85,18 +131,33 @@ variable {cfg : Cfg} {s s' : State}
 theorem inv_claim {i} (h : Inv s) (hs : step? cfg s (.claim i) = some s') : Inv s' := by
   simp only [step?] at hs
   split at hs
-  · cases hs
-    obtain ⟨I1, I2, I3, I4, I5, I6, I7, I8, I9, I9', I10, I11, I12, I13⟩ := h
-    inv_auto
+  · rename_i hg
+    cases hs
+    apply inv_setSlot h
+    · rfl
+    · simp [SlotOK]; exact (h.slot i).1
+    · intro ha; rw [hg.2.2] at ha; cases ha
   · cases hs
 
 theorem inv_loadE {i} (h : Inv s) (hs : step? cfg s (.loadE i) = some s') : Inv s' := by
   simp only [step?] at hs
   split at hs
+  · rename_i hg
+    cases hs
+    apply inv_setSlot h
+    · rfl
+    · simp [SlotOK]; exact ⟨(h.slot i).1, h.glob.1⟩
+    · intro ha; rw [hg.2] at ha; cases ha
   · cases hs
-    obtain ⟨I1, I2, I3, I4, I5, I6, I7, I8, I9, I9', I10, I11, I12, I13⟩ := h
-    inv_auto
-  · cases hs
+
+
+theorem slotOK_fresh_active {E G n gpc epc i} (hg : GlobOK E G gpc epc) (hi : i < n) :
+    SlotOK E G n gpc epc i .active E := by
+  obtain ⟨h1, h2, h3, h4, h5⟩ := hg
+  refine ⟨Nat.le_refl _, by simp, by simp, fun _ => ⟨h1, by omega, h2, hi, h3, ?_, ?_, ?_⟩⟩
+  · intros; rfl
+  · intro v j hv _; exact (h5 v j hv).2
+  · intros; exact Nat.le_refl _
 
 theorem inv_publish {i} (h : Inv s) (hns : cfg.fixD3 = false → NoStall s)
     (hs : step? cfg s (.publish i) = some s') : Inv s' := by
@@ -104,83 +165,242 @@ theorem inv_publish {i} (h : Inv s) (hns : cfg.fixD3 = false → NoStall s)
   split at hs
   · rename_i e hpc
     split at hs
-    · cases hs
-      obtain ⟨I1, I2, I3, I4, I5, I6, I7, I8, I9, I9', I10, I11, I12, I13⟩ := h
-      cases hfix : cfg.fixD3 with
-      | true => inv_auto
-      | false =>
-        have hE : e = s.E := hns hfix i e hpc
-        inv_auto
+    · rename_i hi
+      cases hs
+      have hl := (h.slot i).2.1 e hpc
+      apply inv_setSlot h
+      · rfl
+      · cases hfix : cfg.fixD3 with
+        | true => simp [SlotOK]; omega
+        | false =>
+          have hE : e = s.E := hns hfix i e hpc
+          subst hE
+          simpa using slotOK_fresh_active h.glob hi
+      · intro ha; rw [hpc] at ha; cases ha
     · cases hs
   · cases hs
 
 theorem inv_recheck {i} (h : Inv s) (hs : step? cfg s (.recheck i) = some s') : Inv s' := by
   simp only [step?] at hs
   split at hs
-  · split at hs
+  · rename_i e hpc
+    split at hs
+    · rename_i hi
+      cases hs
+      have hl := (h.slot i).2.2.1 e hpc
+      apply inv_setSlot h
+      · rfl
+      · by_cases hE : s.E = e
+        · have hb : s.bg i = s.E := by omega
+          simp only [hE, if_true]
+          have := slotOK_fresh_active h.glob hi
+          rw [hE] at this
+          rw [← hl.1] at this ⊢
+          exact this
+        · simp [hE, SlotOK]; exact (h.slot i).1
+      · intro ha; rw [hpc] at ha; cases ha
     · cases hs
-      obtain ⟨I1, I2, I3, I4, I5, I6, I7, I8, I9, I9', I10, I11, I12, I13⟩ := h
-      inv_auto
-    · cases hs
-  · cases hs
-
-theorem inv_leaveBegin {i} (h : Inv s) (hs : step? cfg s (.leaveBegin i) = some s') : Inv s' := by
-  simp only [step?] at hs
-  split at hs
-  · cases hs
-    obtain ⟨I1, I2, I3, I4, I5, I6, I7, I8, I9, I9', I10, I11, I12, I13⟩ := h
-    inv_auto
   · cases hs
 
 theorem inv_leaveRunning {i} (h : Inv s) (hs : step? cfg s (.leaveRunning i) = some s') :
     Inv s' := by
   simp only [step?] at hs
   split at hs
+  · rename_i hg
+    cases hs
+    apply inv_setSlot h
+    · rfl
+    · simp [SlotOK]; exact (h.slot i).1
+    · intro ha; rw [hg.2] at ha; cases ha
   · cases hs
-    obtain ⟨I1, I2, I3, I4, I5, I6, I7, I8, I9, I9', I10, I11, I12, I13⟩ := h
-    inv_auto
+
+
+theorem mem_activeSlots {s : State} {j : Nat} : j ∈ activeSlots s ↔ j < s.n ∧ s.pc j = .active := by
+  simp [activeSlots, List.mem_filter]
+
+theorem inv_leaveBegin {i} (h : Inv s) (hs : step? cfg s (.leaveBegin i) = some s') : Inv s' := by
+  simp only [step?] at hs
+  split at hs
+  · cases hs
+    refine ⟨h.glob, ?_, ?_⟩
+    · intro j
+      by_cases hj : j = i
+      · subst hj
+        simp [State.pc, State.bg, upd, SlotOK]
+      · simpa [State.pc, State.bg, upd, hj] using h.slot j
+    · obtain ⟨h1, h2, h3⟩ := h.ghost
+      refine ⟨?_, ?_, ?_⟩
+      · intro o j hj
+        simp only [List.mem_filter, decide_eq_true_eq] at hj
+        have := h1 o j hj.1
+        simpa [State.pc, upd, hj.2] using this
+      · intro k t o hk
+        have hk' : (t, o) ∈ s.items k := by
+          by_cases hki : k = i
+          · subst hki
+            simpa [State.items, upd, Slot.items] using hk
+          · simpa [State.items, upd, hki] using hk
+        obtain ⟨ha, hb⟩ := h2 k t o hk'
+        refine ⟨ha, ?_⟩
+        intro j hj
+        simp only [List.mem_filter, decide_eq_true_eq] at hj
+        have := hb j hj.1
+        simpa [State.bg, upd, hj.2] using this
+      · intro o ho
+        obtain ⟨ha, hb⟩ := h3 o ho
+        exact ⟨ha, by simp [hb]⟩
   · cases hs
 
 theorem inv_unlinkRetire {i obj} (h : Inv s) (hs : step? cfg s (.unlinkRetire i obj) = some s') :
     Inv s' := by
   simp only [step?] at hs
   split at hs
+  · rename_i hg
+    obtain ⟨hi, hpc, hfresh⟩ := hg
+    have e := Option.some.inj hs
+    have hpcs : ∀ j, s'.pc j = s.pc j := by
+      intro j; rw [← e]; by_cases hj : j = i
+      · subst hj; simp [upd, State.pc]
+      · simp [upd, State.pc, hj]
+    have hbgs : ∀ j, s'.bg j = s.bg j := by
+      intro j; rw [← e]; by_cases hj : j = i
+      · subst hj; simp [upd, State.bg]
+      · simp [upd, State.bg, hj]
+    have hitems : ∀ k x, x ∈ s'.items k → x ∈ s.items k ∨ (k = i ∧ x = (s.bg i, obj)) := by
+      intro k x hk; rw [← e] at hk; by_cases hki : k = i
+      · rw [hki] at hk ⊢
+        simp only [State.items, upd, if_true, Slot.items, List.mem_append, List.mem_singleton] at hk
+        simp only [State.items, Slot.items, List.mem_append]
+        rcases hk with hk | hk | hk
+        · exact Or.inl (Or.inl hk)
+        · exact Or.inl (Or.inr hk)
+        · exact Or.inr ⟨trivial, hk⟩
+      · left; simpa [State.items, upd, hki] using hk
+    have hwit : s'.wit = upd s.wit obj (activeSlots s) := by rw [← e]
+    have hall : s'.allocd = obj :: s.allocd := by rw [← e]
+    have hfr : s'.freed = s.freed := by rw [← e]
+    have hE : s'.E = s.E := by rw [← e]
+    have hG : s'.G = s.G := by rw [← e]
+    have hn : s'.n = s.n := by rw [← e]
+    have hgpc : s'.gpc = s.gpc := by rw [← e]
+    have hepc : s'.epc = s.epc := by rw [← e]
+    clear e hs
+    refine ⟨?_, ?_, ?_⟩
+    · rw [hE, hG, hgpc, hepc]; exact h.glob
+    · intro j
+      rw [hE, hG, hgpc, hepc, hn, hpcs, hbgs]
+      exact h.slot j
+    · obtain ⟨h1, h2, h3⟩ := h.ghost
+      refine ⟨?_, ?_, ?_⟩
+      · intro o j hj
+        rw [hpcs]
+        rw [hwit] at hj
+        by_cases ho : o = obj
+        · subst ho
+          simp only [upd, if_true] at hj
+          exact (mem_activeSlots.mp hj).2
+        · simp only [upd, ho, if_false] at hj
+          exact h1 o j hj
+      · intro k t o hk
+        rw [hall, hwit]
+        rcases hitems k _ hk with hk' | ⟨hki, hx⟩
+        · obtain ⟨ha, hb⟩ := h2 k t o hk'
+          have hne : o ≠ obj := fun e => hfresh (e ▸ ha)
+          refine ⟨List.mem_cons_of_mem _ ha, ?_⟩
+          intro j hj
+          simp only [upd, hne, if_false] at hj
+          rw [hbgs]
+          exact hb j hj
+        · injection hx with ht ho
+          subst ho ht
+          refine ⟨List.mem_cons_self, ?_⟩
+          intro j hj
+          simp only [upd, if_true] at hj
+          rw [hbgs]
+          have hja := (mem_activeSlots.mp hj).2
+          have s1 := (h.slot j).1
+          have s2 := ((h.slot i).2.2.2 hpc).2.1
+          omega
+      · intro o ho
+        rw [hfr] at ho
+        rw [hall, hwit]
+        obtain ⟨ha, hb⟩ := h3 o ho
+        have hne : o ≠ obj := fun e => hfresh (e ▸ ha)
+        exact ⟨List.mem_cons_of_mem _ ha, by simp only [upd, hne, if_false]; exact hb⟩
   · cases hs
-    have hact : ∀ j, j ∈ activeSlots s ↔ j < s.n ∧ s.pc j = .active := fun j => mem_activeSlots
-    generalize activeSlots s = act at *
-    obtain ⟨I1, I2, I3, I4, I5, I6, I7, I8, I9, I9', I10, I11, I12, I13⟩ := h
-    inv_auto
-  · cases hs
+
+
+/-- a step of the epoch or gc thread that touches no slot -/
+theorem inv_glob_step (h : Inv s) (E' G' : Nat) (gpc' : GPc) (epc' : EPc)
+    (hg : GlobOK E' G' gpc' epc')
+    (hsl : ∀ i, SlotOK E' G' s.n gpc' epc' i (s.pc i) (s.bg i)) :
+    Inv { s with E := E', G := G', gpc := gpc', epc := epc' } :=
+  ⟨hg, hsl, ghost_mono (s' := { s with E := E', G := G', gpc := gpc', epc := epc' }) h.ghost rfl rfl
+    (fun _ hj => ⟨hj, rfl⟩) (fun _ _ hx => hx) (fun _ ho => Or.inl ho)⟩
 
 theorem inv_eLoadCur (h : Inv s) (hs : step? cfg s .eLoadCur = some s') : Inv s' := by
   simp only [step?] at hs
   split at hs
+  · rename_i hepc
+    cases hs
+    apply inv_glob_step h s.E s.G s.gpc (.check s.E 0)
+    · have := h.glob
+      simp [GlobOK, hepc] at this ⊢
+      grind
+    · intro i
+      have := h.slot i
+      simp [SlotOK, hepc] at this ⊢
+      grind
   · cases hs
-    obtain ⟨I1, I2, I3, I4, I5, I6, I7, I8, I9, I9', I10, I11, I12, I13⟩ := h
-    inv_auto
-  · cases hs
+
 
 theorem inv_eCheck {j} (h : Inv s) (hs : step? cfg s (.eCheck j) = some s') : Inv s' := by
   simp only [step?] at hs
   split at hs
-  · split at hs
-    · split at hs
+  · rename_i cur j' hepc
+    split at hs
+    · rename_i hg
+      obtain ⟨hj, hjn⟩ := hg
+      subst hj
+      split at hs
       · cases hs
-        obtain ⟨I1, I2, I3, I4, I5, I6, I7, I8, I9, I9', I10, I11, I12, I13⟩ := h
-        inv_auto
-      · cases hs
-        obtain ⟨I1, I2, I3, I4, I5, I6, I7, I8, I9, I9', I10, I11, I12, I13⟩ := h
-        inv_auto
+        apply inv_glob_step h s.E s.G s.gpc .loadCur
+        · have := h.glob
+          simp [GlobOK, hepc] at this ⊢
+          grind
+        · intro i
+          have := h.slot i
+          simp [SlotOK, hepc] at this ⊢
+          grind
+      · rename_i hpass
+        cases hs
+        apply inv_glob_step h s.E s.G s.gpc (.check cur (j + 1))
+        · have := h.glob
+          simp [GlobOK, hepc] at this ⊢
+          grind
+        · intro i
+          have := h.slot i
+          have hgl := h.glob
+          simp [SlotOK, GlobOK, hepc] at this hgl ⊢
+          grind
     · cases hs
   · cases hs
 
 theorem inv_eInc (h : Inv s) (hs : step? cfg s .eInc = some s') : Inv s' := by
   simp only [step?] at hs
   split at hs
-  · split at hs
-    · cases hs
-      obtain ⟨I1, I2, I3, I4, I5, I6, I7, I8, I9, I9', I10, I11, I12, I13⟩ := h
-      inv_auto
+  · rename_i cur j hepc
+    split at hs
+    · rename_i hj
+      cases hs
+      apply inv_glob_step h (s.E + 1) s.G s.gpc (.minScan none 0)
+      · have := h.glob
+        simp [GlobOK, hepc] at this ⊢
+        grind
+      · intro i
+        have := h.slot i
+        simp [SlotOK, hepc] at this ⊢
+        grind
     · cases hs
   · cases hs
 
@@ -189,24 +409,72 @@ theorem inv_eMinScan {j} (h : Inv s) (hs : step? cfg s (.eMinScan j) = some s') 
   split at hs
   · rename_i m j' hepc
     split at hs
-    · split at hs
-      · cases hs
-        obtain ⟨I1, I2, I3, I4, I5, I6, I7, I8, I9, I9', I10, I11, I12, I13⟩ := h
-        cases m <;> inv_auto
-      · cases hs
-        obtain ⟨I1, I2, I3, I4, I5, I6, I7, I8, I9, I9', I10, I11, I12, I13⟩ := h
-        cases m <;> inv_auto
+    · rename_i hg
+      obtain ⟨hj, hjn⟩ := hg
+      subst hj
+      have hbj := (h.slot j).1
+      split at hs
+      · rename_i hb
+        cases hs
+        cases m with
+        | none =>
+          apply inv_glob_step h s.E s.G s.gpc (.minScan (some (s.bg j)) (j + 1))
+          · have := h.glob
+            simp [GlobOK, hepc] at this ⊢
+            grind
+          · intro i
+            have := h.slot i
+            simp [SlotOK, hepc] at this ⊢
+            grind
+        | some v =>
+          apply inv_glob_step h s.E s.G s.gpc (.minScan (some (min v (s.bg j))) (j + 1))
+          · have := h.glob
+            simp [GlobOK, hepc] at this ⊢
+            grind
+          · intro i
+            have := h.slot i
+            simp [SlotOK, hepc] at this ⊢
+            grind
+      · rename_i hb
+        cases hs
+        apply inv_glob_step h s.E s.G s.gpc (.minScan m (j + 1))
+        · have := h.glob
+          simp [GlobOK, hepc] at this ⊢
+          grind
+        · intro i
+          have := h.slot i
+          cases m <;> simp [SlotOK, hepc] at this ⊢ <;> grind
     · cases hs
   · cases hs
 
 theorem inv_eSetG (h : Inv s) (hs : step? cfg s .eSetG = some s') : Inv s' := by
   simp only [step?] at hs
   split at hs
-  · rename_i m j' hepc
+  · rename_i m j hepc
     split at hs
-    · cases hs
-      obtain ⟨I1, I2, I3, I4, I5, I6, I7, I8, I9, I9', I10, I11, I12, I13⟩ := h
-      cases m <;> inv_auto
+    · rename_i hj
+      cases hs
+      cases m with
+      | none =>
+        apply inv_glob_step h s.E (s.E - 1) s.gpc .loadCur
+        · have := h.glob
+          simp [GlobOK, hepc] at this ⊢
+          grind
+        · intro i
+          have := h.slot i
+          have hgl := h.glob
+          simp [SlotOK, GlobOK, hepc] at this hgl ⊢
+          grind
+      | some v =>
+        apply inv_glob_step h s.E (v - 1) s.gpc .loadCur
+        · have := h.glob
+          simp [GlobOK, hepc] at this ⊢
+          grind
+        · intro i
+          have := h.slot i
+          have hgl := h.glob
+          simp [SlotOK, GlobOK, hepc] at this hgl ⊢
+          grind
     · cases hs
   · cases hs
 
@@ -215,10 +483,75 @@ theorem inv_gLoadG {j} (h : Inv s) (hs : step? cfg s (.gLoadG j) = some s') : In
   split at hs
   · split at hs
     · cases hs
-      obtain ⟨I1, I2, I3, I4, I5, I6, I7, I8, I9, I9', I10, I11, I12, I13⟩ := h
-      inv_auto
+      apply inv_glob_step h s.E s.G (.cache j s.G) s.epc
+      · have := h.glob
+        simp [GlobOK] at this ⊢
+        grind
+      · intro i
+        have := h.slot i
+        simp [SlotOK] at this ⊢
+        grind
     · cases hs
   · cases hs
+
+
+/-- the core safety argument: an item whose tag is below the gc thread's local `g` has an empty
+    witness set -/
+theorem free_ok (h : Inv s) {j t o g : Nat} (hit : (t, o) ∈ s.items j)
+    (hg : s.gpc.g? = some g) (hlt : ¬ g ≤ t) : o ∈ s.allocd ∧ s.wit o = [] := by
+  obtain ⟨ha, hw⟩ := h.ghost.ret j t o hit
+  refine ⟨ha, ?_⟩
+  apply List.eq_nil_iff_forall_not_mem.mpr
+  intro k hk
+  have h1 := hw k hk
+  have hk' := h.ghost.witAct o k hk
+  have h2 := ((h.slot k).2.2.2 hk').2.2.2.2.1 g hg
+  omega
+
+theorem globOK_gpc {E G gpc gpc' epc} (h : GlobOK E G gpc epc)
+    (hg : ∀ g, gpc'.g? = some g → gpc.g? = some g) : GlobOK E G gpc' epc := by
+  obtain ⟨h1, h2, h3, h4⟩ := h
+  exact ⟨h1, h2, fun g hgg => h3 g (hg g hgg), h4⟩
+
+theorem slotOK_gpc {E G n gpc gpc' epc i pc b} (h : SlotOK E G n gpc epc i pc b)
+    (hg : ∀ g, gpc'.g? = some g → gpc.g? = some g) : SlotOK E G n gpc' epc i pc b := by
+  obtain ⟨h1, h2, h3, h4⟩ := h
+  refine ⟨h1, h2, h3, fun ha => ?_⟩
+  obtain ⟨a1, a2, a3, a4, a5, a6⟩ := h4 ha
+  exact ⟨a1, a2, a3, a4, fun g hgg => a5 g (hg g hgg), a6⟩
+
+/-- a step of the gc thread on slot `j`: the slot keeps `pc` and `begin`, loses items, objects
+    may be released if their witness set is empty -/
+theorem inv_gc_step (h : Inv s) (j : Nat) (sl : Slot) (gpc' : GPc) (fr : List Nat)
+    (hpc : sl.pc = (s.slots j).pc) (hb : sl.begin = (s.slots j).begin)
+    (hitems : ∀ x, x ∈ sl.items → x ∈ (s.slots j).items)
+    (hgpc : ∀ g, gpc'.g? = some g → s.gpc.g? = some g)
+    (hfr : ∀ o, o ∈ fr → o ∈ s.freed ∨ (o ∈ s.allocd ∧ s.wit o = [])) :
+    Inv { s with slots := upd s.slots j sl, gpc := gpc', freed := fr } := by
+  have hpcs : ∀ k, (upd s.slots j sl k).pc = (s.slots k).pc := by
+    intro k; by_cases hk : k = j
+    · subst hk; simp [upd, hpc]
+    · simp [upd, hk]
+  have hbgs : ∀ k, (upd s.slots j sl k).begin = (s.slots k).begin := by
+    intro k; by_cases hk : k = j
+    · subst hk; simp [upd, hb]
+    · simp [upd, hk]
+  refine ⟨globOK_gpc h.glob hgpc, ?_, ?_⟩
+  · intro k
+    simp only [State.pc, State.bg, hpcs, hbgs]
+    exact slotOK_gpc (h.slot k) hgpc
+  · apply ghost_mono (s' := { s with slots := upd s.slots j sl, gpc := gpc', freed := fr })
+      h.ghost rfl rfl
+    · intro k hk
+      simp only [State.pc, State.bg, hpcs, hbgs]
+      exact ⟨hk, trivial⟩
+    · intro k x hx
+      by_cases hkj : k = j
+      · subst hkj
+        simp only [State.items, upd, if_true] at hx ⊢
+        exact hitems x hx
+      · simpa [State.items, upd, hkj] using hx
+    · exact hfr
 
 theorem inv_gCache {j} (h : Inv s) (hs : step? cfg s (.gCache j) = some s') : Inv s' := by
   simp only [step?] at hs
@@ -229,19 +562,30 @@ theorem inv_gCache {j} (h : Inv s) (hs : step? cfg s (.gCache j) = some s') : In
       subst hj
       split at hs
       · cases hs
-        obtain ⟨I1, I2, I3, I4, I5, I6, I7, I8, I9, I9', I10, I11, I12, I13⟩ := h
-        inv_auto
+        have := inv_glob_step h s.E s.G (.pop j g) s.epc (globOK_gpc h.glob (by simp [hgpc]))
+          (fun i => slotOK_gpc (h.slot i) (by simp [hgpc]))
+        exact this
       · rename_i t o hc
         split at hs
         · cases hs
-          obtain ⟨I1, I2, I3, I4, I5, I6, I7, I8, I9, I9', I10, I11, I12, I13⟩ := h
-          inv_auto
+          have := inv_glob_step h s.E s.G (.loadG (nextSlot s j)) s.epc
+            (globOK_gpc h.glob (by simp)) (fun i => slotOK_gpc (h.slot i) (by simp))
+          exact this
         · rename_i hlt
           cases hs
           have hfree := free_ok h (j := j) (t := t) (o := o) (g := g)
             (by simp [State.items, Slot.items, hc]) (by simp [hgpc]) hlt
-          obtain ⟨I1, I2, I3, I4, I5, I6, I7, I8, I9, I9', I10, I11, I12, I13⟩ := h
-          inv_auto
+          refine inv_gc_step h j { s.slots j with cache := none } (.pop j g) (s.freed ++ [o]) rfl rfl ?_ ?_ ?_
+          · intro x hx
+            simp only [Slot.items, Option.toList, List.nil_append] at hx
+            simp only [Slot.items, List.mem_append]
+            exact Or.inr hx
+          · simp [hgpc]
+          · intro o' ho'
+            simp only [List.mem_append, List.mem_singleton] at ho'
+            rcases ho' with ho' | ho'
+            · exact Or.inl ho'
+            · subst ho'; exact Or.inr hfree
     · cases hs
   · cases hs
 
@@ -254,19 +598,37 @@ theorem inv_gPop {j} (h : Inv s) (hs : step? cfg s (.gPop j) = some s') : Inv s'
       subst hj
       split at hs
       · cases hs
-        obtain ⟨I1, I2, I3, I4, I5, I6, I7, I8, I9, I9', I10, I11, I12, I13⟩ := h
-        inv_auto
+        have := inv_glob_step h s.E s.G (.loadG (nextSlot s j)) s.epc
+          (globOK_gpc h.glob (by simp)) (fun i => slotOK_gpc (h.slot i) (by simp))
+        exact this
       · rename_i t o rest hq
         split at hs
         · cases hs
-          obtain ⟨I1, I2, I3, I4, I5, I6, I7, I8, I9, I9', I10, I11, I12, I13⟩ := h
-          inv_auto
+          refine inv_gc_step h j { s.slots j with queue := rest, cache := some (t, o) } (.loadG (nextSlot s j)) s.freed rfl rfl ?_ ?_ ?_
+          · intro x hx
+            simp only [Slot.items, Option.toList, List.singleton_append, List.mem_cons] at hx
+            simp only [Slot.items, List.mem_append, hq, List.mem_cons]
+            rcases hx with hx | hx
+            · exact Or.inr (Or.inl hx)
+            · exact Or.inr (Or.inr hx)
+          · simp
+          · intro o' ho'; exact Or.inl ho'
         · rename_i hlt
           cases hs
           have hfree := free_ok h (j := j) (t := t) (o := o) (g := g)
             (by simp [State.items, Slot.items, hq]) (by simp [hgpc]) hlt
-          obtain ⟨I1, I2, I3, I4, I5, I6, I7, I8, I9, I9', I10, I11, I12, I13⟩ := h
-          inv_auto
+          refine inv_gc_step h j { s.slots j with queue := rest } s.gpc (s.freed ++ [o]) rfl rfl ?_ ?_ ?_
+          · intro x hx
+            simp only [Slot.items, List.mem_append] at hx ⊢
+            rcases hx with hx | hx
+            · exact Or.inl hx
+            · exact Or.inr (by rw [hq]; exact List.mem_cons_of_mem _ hx)
+          · simp [hgpc]
+          · intro o' ho'
+            simp only [List.mem_append, List.mem_singleton] at ho'
+            rcases ho' with ho' | ho'
+            · exact Or.inl ho'
+            · subst ho'; exact Or.inr hfree
     · cases hs
   · cases hs
 
